@@ -6,5 +6,6 @@ CONSTANTS
   EntryOf <- MCEntryOf
   MaxCookie = 7
   MaxOps = 6
+  Lifetimes = TRUE
 INVARIANTS Emit
 CHECK_DEADLOCK FALSE
